@@ -1096,7 +1096,7 @@ def data_programs(rng, count, max_steps):
     lines = []
     for p in range(count):
         be, q0 = BACKENDS[p % 4]
-        q = q0 if rng.chance(1, 2) else rng.choice([17, 19, 30, 52, 12])
+        q = q0 if rng.chance(1, 2) else rng.choice([52, 30, 19] if be.startswith("ntt") else [17, 19, 12])
         n = 16 if p % 3 else 32
         np_ = rng.range(3, 5)
         pool = []
